@@ -179,6 +179,8 @@ Copy == /\ IsEv("copy") /\ E.exc = ""
 Snap == IsEv("snap") /\ Step(m, kind)
 (* assigned from a map of other key / value types (two bindings) and back from a copy of itself: as before, nothing left behind *)
 Xasg == IsEv("xasg") /\ E.exc = "" /\ E.n = 2 /\ Step(m, kind)
+(* a map of E.n bindings built at once (sizes beyond the library's size table included): all there, nothing else, iteration complete *)
+Scale == IsEv("scale") /\ E.exc = "" /\ E.len = E.n /\ E.seen = E.n /\ E.bad = 0 /\ UNCHANGED <<m, kind, sig>>
 Del == /\ IsEv("del")
        /\ Step(Without(m, E.o), Without(kind, E.o))
 
@@ -190,7 +192,7 @@ Bad == /\ IsEv("bad")
                   [] OTHER -> {"ValueError"})          \* (setrefuse: the value type's own Assign refuses the value)
 
 Next == \/ Reset \/ End \/ New \/ Set \/ RemOk \/ RemFail \/ GetOk \/ GetFail \/ Mem
-        \/ ResizeClear \/ ResizeReserve \/ ResizeFail \/ Assign \/ Copy \/ Snap \/ Xasg \/ Del \/ Bad
+        \/ ResizeClear \/ ResizeReserve \/ ResizeFail \/ Assign \/ Copy \/ Snap \/ Xasg \/ Scale \/ Del \/ Bad
 
 Spec == Init /\ [][Next]_vars
 
